@@ -100,6 +100,26 @@ func (c *countingClient) Update(ctx context.Context, obj client.Object, opts ...
 	return c.Client.Update(ctx, obj, opts...)
 }
 
+func (c *countingClient) Patch(ctx context.Context, obj client.Object, patch client.Patch, opts ...client.PatchOption) error {
+	c.updates++
+	return c.Client.Patch(ctx, obj, patch, opts...)
+}
+
+func (c *countingClient) Create(ctx context.Context, obj client.Object, opts ...client.CreateOption) error {
+	c.updates++
+	return c.Client.Create(ctx, obj, opts...)
+}
+
+func (c *countingClient) Delete(ctx context.Context, obj client.Object, opts ...client.DeleteOption) error {
+	c.updates++
+	return c.Client.Delete(ctx, obj, opts...)
+}
+
+func (c *countingClient) DeleteAllOf(ctx context.Context, obj client.Object, opts ...client.DeleteAllOfOption) error {
+	c.updates++
+	return c.Client.DeleteAllOf(ctx, obj, opts...)
+}
+
 // isSvcRef: does the backendRef denote the core Service <name> of the route's namespace?
 // (kind defaults to Service, group to core, namespace to the route's namespace.)
 func isSvcRef(ref gw.HTTPBackendRef, name string) bool {
@@ -146,28 +166,14 @@ func frameKey(rule gw.HTTPRouteRule) string {
 // classify names the structural class of a user rule (signature component).
 func classify(rule gw.HTTPRouteRule) string {
 	if len(rule.BackendRefs) == 0 {
-		for _, f := range rule.Filters {
-			if f.Type == gw.HTTPRouteFilterRequestRedirect {
-				return "backend-less-redirect"
-			}
-		}
-		return "backend-less"
+		return "backend-less" // e.g. a redirect rule
 	}
 	st, _, others := split(rule)
 	if len(st) > 0 {
 		if len(others) == 0 {
 			return "stable-only"
 		}
-		user := st[0].Weight != nil && *st[0].Weight != 1
-		for _, o := range others {
-			if o.Weight != nil && *o.Weight != 1 {
-				user = true
-			}
-		}
-		if user {
-			return "stable+foreign(user-weights)"
-		}
-		return "stable+foreign(default-weights)"
+		return "stable+foreign"
 	}
 	for _, ref := range rule.BackendRefs {
 		if string(ref.Name) != stableSvc {
@@ -530,38 +536,49 @@ type judgeInfo struct {
 	generated int
 }
 
-// frame: every user rule that does not reference the stable Service is present byte-identical.
-func judgeFrame(u0, cur []gw.HTTPRouteRule, op string) *vio {
-	for _, u := range u0 {
-		if hasStable(u) {
-			continue
-		}
-		if !containsJSON(cur, j(u)) {
-			what := "lost"
-			for _, c := range cur {
-				if frameKey(c) == frameKey(u) {
-					what = "altered"
-				}
-			}
-			return newVio("C13/frame/rule-without-stable-"+what+"/"+classify(u)+"/"+op,
-				"a user rule that does not reference the stable Service %q was %s by %s\nuser rule: %s\nrules after: %s", stableSvc, what, op, j(u), j(cur))
-		}
-	}
-	return nil
+// rv = a rule with everything the oracles ask about it, computed once per store state.
+type rv struct {
+	r              gw.HTTPRouteRule
+	js, core, fkey string
+	st, cn, others []gw.HTTPBackendRef
 }
 
-// classifyCur: is cur rule c a counterpart of a user rule / a generated canary rule / unknown?
-func counterpartOf(u0 []gw.HTTPRouteRule, c gw.HTTPRouteRule) int {
-	cj := j(c)
-	for i, u := range u0 {
-		if !hasStable(u) && j(u) == cj {
+func (v *rv) stable() bool    { return len(v.st) > 0 }
+func (v *rv) canary() bool    { return len(v.cn) > 0 }
+func (v *rv) generated() bool { return len(v.cn) > 0 && len(v.st) == 0 }
+
+func views(rules []gw.HTTPRouteRule) []rv {
+	out := make([]rv, len(rules))
+	for i := range rules {
+		v := &out[i]
+		v.r = rules[i]
+		v.st, v.cn, v.others = split(rules[i])
+		v.js = j(rules[i])
+		v.fkey = frameKey(rules[i])
+		v.core = j(map[string]interface{}{"m": rules[i].Matches, "f": rules[i].Filters, "o": v.others})
+	}
+	return out
+}
+
+func rulesOf(vs []rv) []gw.HTTPRouteRule {
+	out := make([]gw.HTTPRouteRule, len(vs))
+	for i := range vs {
+		out[i] = vs[i].r
+	}
+	return out
+}
+
+// counterpartOf: index of the user rule that cur rule c stands for, or -1.
+// rules without the stable Service: byte-identical; rules with it: same matches, filters, other backends.
+func counterpartOf(u0 []rv, c *rv) int {
+	for i := range u0 {
+		if !u0[i].stable() && u0[i].js == c.js {
 			return i
 		}
 	}
-	if hasStable(c) {
-		cc := core(c)
-		for i, u := range u0 {
-			if hasStable(u) && core(u) == cc {
+	if c.stable() {
+		for i := range u0 {
+			if u0[i].stable() && u0[i].core == c.core {
 				return i
 			}
 		}
@@ -569,74 +586,129 @@ func counterpartOf(u0 []gw.HTTPRouteRule, c gw.HTTPRouteRule) int {
 	return -1
 }
 
-func isGenerated(c gw.HTTPRouteRule) bool { return hasCanary(c) && !hasStable(c) }
-
-func findStableCounterpart(cur []gw.HTTPRouteRule, u gw.HTTPRouteRule) *gw.HTTPRouteRule {
-	cu := core(u)
+func findStableCounterpart(cur []rv, u *rv) *rv {
 	for i := range cur {
-		if hasStable(cur[i]) && core(cur[i]) == cu {
+		if cur[i].stable() && cur[i].core == u.core {
 			return &cur[i]
 		}
 	}
 	return nil
 }
 
-func lostOrAltered(cur []gw.HTTPRouteRule, u gw.HTTPRouteRule) string {
-	for _, c := range cur {
-		if frameKey(c) == frameKey(u) && !isGenerated(c) {
-			return "altered"
+// lostOrAltered: diagnosis only - is there a rule with the same matches and filters that stands for
+// no other user rule (then the user's rule was altered) or none (lost)?
+func lostOrAltered(u0, cur []rv, u *rv) string {
+	for i := range cur {
+		c := &cur[i]
+		if c.fkey != u.fkey || c.generated() {
+			continue
 		}
+		if k := counterpartOf(u0, c); k >= 0 && u0[k].js != u.js {
+			continue
+		}
+		return "altered"
 	}
 	return "lost"
 }
 
-func judgeWeight(u0, cur []gw.HTTPRouteRule, w int32, info *judgeInfo) *vio {
+// describeRefs names the backends of an unexpected rule (signature component).
+func describeRefs(c *rv) string {
+	set := map[string]bool{}
+	for _, ref := range c.r.BackendRefs {
+		switch {
+		case isSvcRef(ref, stableSvc):
+			set["stable"] = true
+		case isSvcRef(ref, canarySvc):
+			set["canary"] = true
+		case string(ref.Name) == canarySvc:
+			set["canary-name-but-other-kind-group-or-namespace"] = true
+		case string(ref.Name) == stableSvc:
+			set["stable-name-but-other-kind-group-or-namespace"] = true
+		default:
+			set["foreign"] = true
+		}
+	}
+	if len(set) == 0 {
+		return "no-backends"
+	}
+	ks := make([]string, 0, len(set))
+	for k := range set {
+		ks = append(ks, k)
+	}
+	sort.Strings(ks)
+	return strings.Join(ks, "+")
+}
+
+// frame: every user rule that does not reference the stable Service is present byte-identical.
+func judgeFrame(u0, cur []rv, op string) *vio {
+	for i := range u0 {
+		u := &u0[i]
+		if u.stable() {
+			continue
+		}
+		found := false
+		for k := range cur {
+			if cur[k].js == u.js {
+				found = true
+				break
+			}
+		}
+		if !found {
+			what := lostOrAltered(u0, cur, u)
+			return newVio("C13/frame/rule-without-stable-"+what+"/"+classify(u.r)+"/"+op,
+				"a user rule that does not reference the stable Service %q was %s by %s\nuser rule: %s\nrules after: %s", stableSvc, what, op, u.js, j(rulesOf(cur)))
+		}
+	}
+	return nil
+}
+
+func judgeWeight(u0, cur []rv, w int32, info *judgeInfo) *vio {
 	if v := judgeFrame(u0, cur, "weight-step"); v != nil {
 		return v
 	}
 	rewritten := 0
-	for _, u := range u0 {
-		if !hasStable(u) {
+	for i := range u0 {
+		u := &u0[i]
+		if !u.stable() {
 			continue
 		}
-		cls := classify(u)
+		cls := classify(u.r)
 		c := findStableCounterpart(cur, u)
 		if c == nil {
-			what := lostOrAltered(cur, u)
 			diag := "user-rule-lost"
-			if what == "altered" {
+			if lostOrAltered(u0, cur, u) == "altered" {
 				diag = "other-backend-changed"
 			}
-			return newVio("C13/weight-step/"+diag+"/"+cls, "weight %d%%: no rule with the user's matches, filters and untouched other backends that still targets the stable Service\nuser rule: %s\nrules after: %s", w, j(u), j(cur))
+			return newVio("C13/weight-step/"+diag+"/"+cls, "weight %d%%: no rule with the user's matches, filters and untouched other backends that still targets the stable Service\nuser rule: %s\nrules after: %s", w, u.js, j(rulesOf(cur)))
 		}
-		st, cn, _ := split(*c)
-		if len(st) != 1 {
-			return newVio("C13/weight-step/stable-ref-duplicated/"+cls, "weight %d%%: %d stable refs in %s", w, len(st), j(*c))
+		if len(c.st) != 1 {
+			return newVio("C13/weight-step/stable-ref-duplicated/"+cls, "weight %d%%: %d stable refs in %s", w, len(c.st), c.js)
 		}
-		if st[0].Weight == nil || *st[0].Weight != 100-w {
-			return newVio("C13/weight-step/stable-weight/"+cls, "weight %d%%: stable Service weight is %s, want %d\nrule after: %s", w, j(st[0].Weight), 100-w, j(*c))
+		if c.st[0].Weight == nil || *c.st[0].Weight != 100-w {
+			return newVio("C13/weight-step/stable-weight/"+cls, "weight %d%%: stable Service weight is %s, want %d\nrule after: %s", w, j(c.st[0].Weight), 100-w, c.js)
 		}
-		if len(cn) == 0 {
-			return newVio("C13/weight-step/canary-missing/"+cls, "weight %d%%: rule targets the stable Service but has no canary backendRef\nrule after: %s", w, j(*c))
+		if len(c.cn) == 0 {
+			return newVio("C13/weight-step/canary-missing/"+cls, "weight %d%%: rule targets the stable Service but has no canary backendRef\nrule after: %s", w, c.js)
 		}
-		if len(cn) > 1 {
-			return newVio("C13/weight-step/canary-ref-duplicated/"+cls, "weight %d%%: %d canary refs in %s", w, len(cn), j(*c))
+		if len(c.cn) > 1 {
+			return newVio("C13/weight-step/canary-ref-duplicated/"+cls, "weight %d%%: %d canary refs in %s", w, len(c.cn), c.js)
 		}
-		if cn[0].Weight == nil || *cn[0].Weight != w {
-			return newVio("C13/weight-step/canary-weight/"+cls, "weight %d%%: canary Service weight is %s, want %d\nrule after: %s", w, j(cn[0].Weight), w, j(*c))
+		if c.cn[0].Weight == nil || *c.cn[0].Weight != w {
+			return newVio("C13/weight-step/canary-weight/"+cls, "weight %d%%: canary Service weight is %s, want %d\nrule after: %s", w, j(c.cn[0].Weight), w, c.js)
 		}
 		rewritten++
 	}
 	leftover := 0
-	for _, c := range cur {
+	for i := range cur {
+		c := &cur[i]
 		if counterpartOf(u0, c) >= 0 {
 			continue
 		}
-		if isGenerated(c) {
+		if c.generated() {
 			leftover++ // a generated rule of an earlier match step; the property does not say it must go at a weight step
 			continue
 		}
-		return newVio("C13/weight-step/unexpected-rule", "weight %d%%: rule is neither a user rule nor a generated canary rule: %s\nuser rules: %s", w, j(c), j(u0))
+		return newVio("C13/weight-step/unexpected-rule/backends:"+describeRefs(c), "weight %d%%: rule is neither a user rule nor a generated canary rule: %s\nuser rules: %s", w, c.js, j(rulesOf(u0)))
 	}
 	o := fmt.Sprintf("weight-step: stable-rules-split=%d", rewritten)
 	if leftover > 0 {
@@ -646,51 +718,61 @@ func judgeWeight(u0, cur []gw.HTTPRouteRule, w int32, info *judgeInfo) *vio {
 	return nil
 }
 
-func judgeMatch(u0, prev, cur []gw.HTTPRouteRule, user []v1beta1.HttpRouteMatch, info *judgeInfo) *vio {
+func judgeMatch(u0, prev, cur []rv, user []v1beta1.HttpRouteMatch, info *judgeInfo) *vio {
 	if v := judgeFrame(u0, cur, "match-step"); v != nil {
 		return v
 	}
-	// the original rules are kept: every rule that carried no canary reference before the step is still there, unchanged
-	for _, p := range prev {
-		if hasCanary(p) {
-			continue
-		}
-		if !containsJSON(cur, j(p)) {
-			cls := "unknown"
-			if i := counterpartOf(u0, p); i >= 0 {
-				cls = classify(u0[i])
-			}
-			return newVio("C13/match-step/original-rule-"+lostOrAltered(cur, p)+"/"+cls,
-				"match step %s: a rule without canary reference was not kept\nrule before: %s\nrules after: %s", j(user), j(p), j(cur))
-		}
-	}
 	// every user rule that targets the stable Service still exists (matches, filters, other backends; still targets stable)
 	var stableUsers []gw.HTTPRouteRule
-	for _, u := range u0 {
-		if !hasStable(u) {
+	for i := range u0 {
+		u := &u0[i]
+		if !u.stable() {
 			continue
 		}
-		stableUsers = append(stableUsers, u)
+		stableUsers = append(stableUsers, u.r)
 		if findStableCounterpart(cur, u) == nil {
-			return newVio("C13/match-step/user-rule-"+lostOrAltered(cur, u)+"/"+classify(u),
-				"match step %s: the user's rule is gone (no rule with its matches, filters and other backends targets the stable Service)\nuser rule: %s\nrules before: %s\nrules after: %s", j(user), j(u), j(prev), j(cur))
+			return newVio("C13/match-step/user-rule-lost/"+classify(u.r),
+				"match step %s: the user's rule is gone (no rule with its matches, filters and other backends targets the stable Service)\nuser rule: %s\nrules before: %s\nrules after: %s", j(user), u.js, j(rulesOf(prev)), j(rulesOf(cur)))
+		}
+	}
+	// the original rules are kept: every rule that carried no canary reference before the step is still there, unchanged
+	for i := range prev {
+		p := &prev[i]
+		if p.canary() {
+			continue
+		}
+		found := false
+		for k := range cur {
+			if cur[k].js == p.js {
+				found = true
+				break
+			}
+		}
+		if !found {
+			cls := "unknown"
+			if k := counterpartOf(u0, p); k >= 0 {
+				cls = classify(u0[k].r)
+			}
+			return newVio("C13/match-step/original-rule-changed/"+cls,
+				"match step %s: a rule without canary reference was not kept as it was\nrule before: %s\nrules after: %s", j(user), p.js, j(rulesOf(cur)))
 		}
 	}
 	var gens []gw.HTTPRouteRule
-	for _, c := range cur {
+	for i := range cur {
+		c := &cur[i]
 		if counterpartOf(u0, c) >= 0 {
 			continue
 		}
-		if isGenerated(c) {
-			gens = append(gens, c)
+		if c.generated() {
+			gens = append(gens, c.r)
 			continue
 		}
-		return newVio("C13/match-step/unexpected-rule", "match step %s: rule is neither a user rule nor a generated canary rule: %s\nuser rules: %s", j(user), j(c), j(u0))
+		return newVio("C13/match-step/unexpected-rule/backends:"+describeRefs(c), "match step %s: rule is neither a user rule nor a generated canary rule (canary Service without stable Service): %s\nuser rules: %s", j(user), c.js, j(rulesOf(u0)))
 	}
 	info.generated = len(gens)
 	sr := judgeScope(gens, stableUsers, user)
 	if sr.over != "" {
-		return newVio("C13/match-scope/over-accept/"+listClass(user), "%s\nrules after: %s", sr.over, j(cur))
+		return newVio("C13/match-scope/over-accept/"+listClass(user), "%s\nrules after: %s", sr.over, j(rulesOf(cur)))
 	}
 	o := fmt.Sprintf("match-step(%s): generated=%d", listClass(user), len(gens))
 	if sr.under {
@@ -710,48 +792,47 @@ func normStableWeight(rule gw.HTTPRouteRule) string {
 	return j(c)
 }
 
-func judgeFinalise(u0, cur []gw.HTTPRouteRule, info *judgeInfo) *vio {
-	for _, c := range cur {
-		if hasCanary(c) {
-			return newVio("C13/finalise/canary-ref-left", "a rule still references the canary Service %q after Finalise: %s", canarySvc, j(c))
+func judgeFinalise(u0, cur []rv, info *judgeInfo) *vio {
+	for i := range cur {
+		if cur[i].canary() {
+			return newVio("C13/finalise/canary-ref-left", "a rule still references the canary Service %q after Finalise: %s", canarySvc, cur[i].js)
 		}
 	}
 	if v := judgeFrame(u0, cur, "finalise"); v != nil {
 		return v
 	}
-	for _, u := range u0 {
-		if !hasStable(u) {
+	for i := range u0 {
+		u := &u0[i]
+		if !u.stable() {
 			continue
 		}
-		cls := classify(u)
+		cls := classify(u.r)
 		c := findStableCounterpart(cur, u)
 		if c == nil {
-			return newVio("C13/finalise/user-rule-"+lostOrAltered(cur, u)+"/"+cls, "after Finalise the user's rule is not there\nuser rule: %s\nrules after: %s", j(u), j(cur))
+			return newVio("C13/finalise/user-rule-"+lostOrAltered(u0, cur, u)+"/"+cls, "after Finalise the user's rule is not there\nuser rule: %s\nrules after: %s", u.js, j(rulesOf(cur)))
 		}
-		st, _, others := split(*c)
-		ust, _, _ := split(u)
-		if len(others) == 0 {
+		if c.js == u.js {
+			continue
+		}
+		if normStableWeight(c.r) != normStableWeight(u.r) {
+			return newVio("C13/finalise/user-rule-altered/"+cls, "after Finalise the rule differs from what the user wrote (beyond the stable weight)\nuser rule: %s\nrule after: %s", u.js, c.js)
+		}
+		if len(c.others) == 0 {
 			// sole backend: any non-zero weight means "all traffic of the rule" - the code's normalisation to 1 is tolerated
-			if st[0].Weight != nil && *st[0].Weight == 0 {
-				return newVio("C13/finalise/stable-weight-zero/"+cls, "after Finalise the only backend has weight 0 (no traffic is forwarded): %s", j(*c))
-			}
-			if normStableWeight(*c) != normStableWeight(u) {
-				return newVio("C13/finalise/user-rule-altered/"+cls, "after Finalise the rule differs from what the user wrote (beyond the stable weight)\nuser rule: %s\nrule after: %s", j(u), j(*c))
+			if c.st[0].Weight != nil && *c.st[0].Weight == 0 {
+				return newVio("C13/finalise/stable-weight-zero/"+cls, "after Finalise the only backend has weight 0 (no traffic is forwarded): %s", c.js)
 			}
 			continue
 		}
-		if normStableWeight(*c) != normStableWeight(u) {
-			return newVio("C13/finalise/user-rule-altered/"+cls, "after Finalise the rule differs from what the user wrote (beyond the stable weight)\nuser rule: %s\nrule after: %s", j(u), j(*c))
-		}
-		if j(st[0].Weight) != j(ust[0].Weight) {
+		if j(c.st[0].Weight) != j(u.st[0].Weight) {
 			return newVio("C13/finalise/stable-weight-in-mixed-rule/"+cls,
 				"the rule splits traffic between the stable Service and other backends; the user's stable weight %s became %s after Finalise (ratio to the other backends changed)\nuser rule: %s\nrule after: %s",
-				j(ust[0].Weight), j(st[0].Weight), j(u), j(*c))
+				j(u.st[0].Weight), j(c.st[0].Weight), u.js, c.js)
 		}
 	}
-	for _, c := range cur {
-		if counterpartOf(u0, c) < 0 {
-			return newVio("C13/finalise/generated-or-unknown-rule-left", "after Finalise a rule that the user did not write is present: %s\nuser rules: %s", j(c), j(u0))
+	for i := range cur {
+		if counterpartOf(u0, &cur[i]) < 0 {
+			return newVio("C13/finalise/generated-or-unknown-rule-left/backends:"+describeRefs(&cur[i]), "after Finalise a rule that the user did not write is present: %s\nuser rules: %s", cur[i].js, j(rulesOf(u0)))
 		}
 	}
 	info.outcomes = append(info.outcomes, "finalise: restored")
@@ -807,13 +888,26 @@ func execute(c *Case, trace func(string)) (res result) {
 	}
 	base := fake.NewClientBuilder().WithScheme(scheme).WithObjects(route).Build()
 	cli := &countingClient{Client: base}
-	u0, err := readRules(base)
+	u0rules, err := readRules(base)
 	if err != nil {
 		res.vio = newVio("C13/harness/cannot-read-route", "%v", err)
 		return
 	}
-	say("store: HTTPRoute %s/%s, stable Service %q, canary Service %q\nuser rules: %s", nsName, routeName, stableSvc, canarySvc, j(u0))
+	u0 := views(u0rules)
+	say("store: HTTPRoute %s/%s, stable Service %q, canary Service %q\nuser rules: %s", nsName, routeName, stableSvc, canarySvc, j(u0rules))
 	prev := u0
+	// the provider can reach the store only through cli, which counts every write verb: when a call wrote
+	// nothing the store still holds what was read after the previous call
+	read := func(wrote bool) ([]rv, error) {
+		if !wrote {
+			return prev, nil
+		}
+		rules, rerr := readRules(base)
+		if rerr != nil {
+			return nil, rerr
+		}
+		return views(rules), nil
+	}
 	fail := func(op int, v *vio) result {
 		res.vio, res.vioOp, res.writes = v, op, cli.updates
 		say("  VERDICT: VIOLATION %s\n  %s", v.sig, strings.ReplaceAll(v.detail, "\n", "\n  "))
@@ -837,17 +931,17 @@ func execute(c *Case, trace func(string)) (res result) {
 		var cerr error
 		say("op %d: EnsureRoutes(%s)", i+1, j(st))
 		if p := lib.Catch(func() { done, cerr = prov.EnsureRoutes(context.TODO(), strategy) }); p != nil {
-			return fail(i, newVio("C13/panic/EnsureRoutes/"+p.Site+"/"+st.kind()+"-step", "EnsureRoutes panicked: %s\nstep: %s\nrules before: %s\n%s", p.Value, j(st), j(prev), p.Stack))
+			return fail(i, newVio("C13/panic/EnsureRoutes/"+p.Site+"/"+st.kind()+"-step", "EnsureRoutes panicked: %s\nstep: %s\nrules before: %s\n%s", p.Value, j(st), j(rulesOf(prev)), p.Stack))
 		}
 		if cerr != nil {
-			return fail(i, newVio("C13/error/EnsureRoutes/"+st.kind()+"-step", "EnsureRoutes failed on a store that never fails: %v\nstep: %s\nrules before: %s", cerr, j(st), j(prev)))
+			return fail(i, newVio("C13/error/EnsureRoutes/"+st.kind()+"-step", "EnsureRoutes failed on a store that never fails: %v\nstep: %s\nrules before: %s", cerr, j(st), j(rulesOf(prev))))
 		}
-		cur, rerr := readRules(base)
+		wrote := cli.updates > before
+		cur, rerr := read(wrote)
 		if rerr != nil {
 			return fail(i, newVio("C13/harness/cannot-read-route", "%v", rerr))
 		}
-		wrote := cli.updates > before
-		say("  returned verified=%v err=nil, wrote=%v\n  rules after: %s", done, wrote, j(cur))
+		say("  returned verified=%v err=nil, wrote=%v\n  rules after: %s", done, wrote, j(rulesOf(cur)))
 		info := &judgeInfo{}
 		var v *vio
 		if len(st.Matches) > 0 {
@@ -885,17 +979,17 @@ func execute(c *Case, trace func(string)) (res result) {
 			suffix = "/second-finalise"
 		}
 		if p := lib.Catch(func() { modified, cerr = prov.Finalise(context.TODO()) }); p != nil {
-			return fail(len(c.Steps)+k, newVio("C13/panic/Finalise/"+p.Site+suffix, "Finalise panicked: %s\nrules before: %s\n%s", p.Value, j(prev), p.Stack))
+			return fail(len(c.Steps)+k, newVio("C13/panic/Finalise/"+p.Site+suffix, "Finalise panicked: %s\nrules before: %s\n%s", p.Value, j(rulesOf(prev)), p.Stack))
 		}
 		if cerr != nil {
-			return fail(len(c.Steps)+k, newVio("C13/error/Finalise"+suffix, "Finalise failed on a store that never fails: %v\nrules before: %s", cerr, j(prev)))
+			return fail(len(c.Steps)+k, newVio("C13/error/Finalise"+suffix, "Finalise failed on a store that never fails: %v\nrules before: %s", cerr, j(rulesOf(prev))))
 		}
-		cur, rerr := readRules(base)
+		wrote := cli.updates > before
+		cur, rerr := read(wrote)
 		if rerr != nil {
 			return fail(len(c.Steps)+k, newVio("C13/harness/cannot-read-route", "%v", rerr))
 		}
-		wrote := cli.updates > before
-		say("  returned modified=%v err=nil, wrote=%v\n  rules after: %s", modified, wrote, j(cur))
+		say("  returned modified=%v err=nil, wrote=%v\n  rules after: %s", modified, wrote, j(rulesOf(cur)))
 		info := &judgeInfo{}
 		res.nFin++
 		if v := judgeFinalise(u0, cur, info); v != nil {
@@ -929,7 +1023,16 @@ func kindsOf(steps []Step) string {
 // shortest suffix of the preceding steps that still reproduces the same signature at the same
 // operation is looked for; if the operation alone reproduces it the signature stays as it is,
 // otherwise "/only-after:<kinds of that suffix>" is appended.
-func attribute(c *Case, res result) string {
+func attribute(c *Case, res result, exec func(red *Case, k int) (sig string, op int)) string {
+	if exec == nil {
+		exec = func(red *Case, _ int) (string, int) {
+			rr := execute(red, nil)
+			if rr.vio == nil {
+				return "", -1
+			}
+			return rr.vio.sig, rr.vioOp
+		}
+	}
 	base := res.vio.sig
 	n := len(c.Steps)
 	var pre []Step // steps before the failing op
@@ -943,12 +1046,12 @@ func attribute(c *Case, res result) string {
 		red := &Case{Rules: c.Rules}
 		red.Steps = append(red.Steps, pre[len(pre)-k:]...)
 		red.Steps = append(red.Steps, tail...)
-		rr := execute(red, nil)
+		rsig, rop := exec(red, k)
 		wantOp := len(red.Steps) - 1 // the failing step is the last step of the reduced history
 		if res.vioOp >= n {
 			wantOp = len(red.Steps) + (res.vioOp - n) // first / second Finalise
 		}
-		if rr.vio != nil && rr.vio.sig == base && rr.vioOp == wantOp {
+		if rsig == base && rop == wantOp {
 			if k == 0 {
 				return base
 			}
@@ -1122,6 +1225,9 @@ type domain struct {
 	steps   []stepLetter
 	jobs    []job
 	sizes   map[string]interface{}
+	nSteps  int
+	l1      int     // number of jobs of length 0 and 1 (phase 1)
+	l1index []int32 // route*nSteps+step -> job index of the length-1 history (route, step), -1 if not enumerated
 }
 
 func routesOver(idx []int, n int) [][]int {
@@ -1158,7 +1264,18 @@ func buildDomain(thorough bool) *domain {
 	r2 := routesOver(all, 2)
 	var r3 [][]int
 	if thorough {
-		r3 = routesOver(all, 3)
+		// every ordered triple over the twelve quick letters + every triple that involves a thorough-only
+		// letter in one (index) order - all orders are covered by the 2-rule routes
+		r3 = routesOver(all[:12], 3)
+		for a := 0; a < len(all); a++ {
+			for b := a + 1; b < len(all); b++ {
+				for c := b + 1; c < len(all); c++ {
+					if c >= 12 {
+						r3 = append(r3, []int{a, b, c})
+					}
+				}
+			}
+		}
 	} else {
 		r3 = routesOver(small, 3)
 	}
@@ -1264,40 +1381,73 @@ func buildDomain(thorough bool) *domain {
 	for ri := range d.routes {
 		push(ri)
 	}
+	// (3-rule routes: the five edge weights only - the split of a rule does not depend on the other rules)
+	sAll3 := cat(wFive, m1, m2nr, m3nr, m2rep, m3rep, both)
+	d.l1index = make([]int32, len(d.routes)*len(d.steps))
+	for i := range d.l1index {
+		d.l1index[i] = -1
+	}
 	for ri := range d.routes {
-		for _, s := range sAll {
+		alpha := sAll
+		if ri >= n2 {
+			alpha = sAll3
+		}
+		for _, s := range alpha {
+			d.l1index[ri*len(d.steps)+s] = int32(len(d.jobs))
 			push(ri, s)
 		}
 	}
 	l1 := len(d.jobs)
-	// length 2
-	var s2, s2small []int
-	if thorough {
-		s2 = cat(wFive, m1, m2nr, m2rep, m3nr, both)
-		s2small = cat(wFive, m1, m2nr)
-	} else {
-		s2 = cat(wFive, m1, m2nr)
-		s2small = s2
-	}
-	for ri, r := range d.routes {
-		alpha := s2
-		if ri >= n2 {
-			if !isSmall(r) {
-				continue
+	d.nSteps = len(d.steps)
+	d.l1 = l1
+	byName := func(names ...string) []int {
+		var ids []int
+		for _, n := range names {
+			for i, st := range d.steps {
+				if st.name == n {
+					ids = append(ids, i)
+				}
 			}
-			alpha = s2small
 		}
-		for _, a := range alpha {
-			for _, b := range alpha {
-				push(ri, a, b)
+		return ids
+	}
+	// length 2: 1- and 2-rule routes x (alphabet)^2; quick: 2-rule routes with the reduced alphabet s3
+	s2 := cat(wFive, m1, m2nr, m2rep, both)
+	s2small := cat(wFive, m1, m2nr)
+	s3 := cat(wThree, m1, byName("m[path,header]", "m[header,path]", "m[path+header,header]", "m[header,header+query]",
+		"m[query,path]", "m[path,query]", "m[header+query,path+header]", "m[path,path+header]"))
+	for ri, r := range d.routes {
+		switch {
+		case ri < n2:
+			alpha := s2
+			if !thorough && ri >= n1 {
+				alpha = s3
+			}
+			for _, a := range alpha {
+				for _, b := range alpha {
+					push(ri, a, b)
+				}
+			}
+			if thorough && ri < n1 {
+				// 1-rule routes: the 3-element lists before / after every letter of the alphabet
+				for _, a := range s2 {
+					for _, b := range m3nr {
+						push(ri, a, b)
+						push(ri, b, a)
+					}
+				}
+			}
+		case thorough && isSmall(r):
+			for _, a := range s2small {
+				for _, b := range s2small {
+					push(ri, a, b)
+				}
 			}
 		}
 	}
 	l2 := len(d.jobs)
 	// length 3 (thorough): 1-rule routes and 2-rule routes over the six basic letters
-	var s3 []int
 	if thorough {
-		s3 = cat(wThree, m1, m2nr)
 		for ri, r := range d.routes {
 			if ri >= n2 || (ri >= n1 && !isSmall(r)) {
 				continue
@@ -1322,7 +1472,7 @@ func buildDomain(thorough bool) *domain {
 		"histories_len_2":         l2 - l1,
 		"histories_len_3":         len(d.jobs) - l2,
 		"len2_step_alphabet":      len(s2),
-		"len3_step_alphabet":      len(s3),
+		"reduced_step_alphabet":   len(s3),
 		"every_history_ends_with": "Finalise, Finalise",
 	}
 	return d
@@ -1410,6 +1560,8 @@ func Run(r *lib.Report) {
 		"after Finalise the stable ref's weight is ignored when it is the rule's only backend and non-zero (the code normalises it to 1: same traffic); for a rule that also has other backends the user's weight is part of the rule the user wrote",
 		"the first violating operation ends the judgement of a history (later operations would only show consequences); the signature gets '/only-after:<kinds>' when the failing operation alone on the pristine route does not reproduce it",
 		"return values (verified / modified) are recorded as outcomes, not judged",
+		"the provider reaches the store only through a wrapper that counts every write verb; spec.rules is re-read from the store after every call that wrote, after a call that wrote nothing the previous reading is reused",
+		"tier domains: quick = all 1-/2-rule routes + 3-rule routes over six basic letters, every single step, step pairs (30-letter alphabet on 1-rule routes, 16-letter alphabet on 2-rule routes); thorough = all 1-/2-rule routes over 19 letters + 3-rule routes (every ordered triple of the 12 quick letters, every other triple in one order), weights 0..100 (3-rule routes: five edge weights), every match list of length 1..3 with repetition, step pairs and triples over reduced alphabets (sizes in the evidence)",
 	}
 	r.TrustedBase = []string{"controller-runtime fake client (JSON round trip, resourceVersion conflicts)", "request model in c13.go (acceptMatch / universe)"}
 	for k, v := range d.sizes {
@@ -1429,7 +1581,14 @@ func Run(r *lib.Report) {
 	vios := map[string]*found{}
 	var nW, nM, nG, nF, nWrote, nHeld int64
 
-	lib.ParallelFor(len(d.jobs), func(i int) {
+	// phase 1 = histories of length 0 and 1; their verdicts also answer "does the failing operation alone
+	// reproduce the signature?" for the longer histories of phase 2
+	type p1res struct {
+		sig string
+		op  int
+	}
+	p1 := make([]p1res, d.l1)
+	work := func(i int) {
 		jb := d.jobs[i]
 		c := d.caseOf(jb)
 		var res result
@@ -1463,7 +1622,25 @@ func Run(r *lib.Report) {
 			atomic.AddInt64(&nHeld, 1)
 			return
 		}
-		sig := attribute(c, res)
+		if i < d.l1 {
+			p1[i] = p1res{res.vio.sig, res.vioOp}
+		}
+		sig := attribute(c, res, func(red *Case, k int) (string, int) {
+			if k == 0 && i >= d.l1 {
+				idx := int(jb.route) // Finalise on the untouched route = job <route>
+				if res.vioOp < int(jb.n) {
+					idx = int(d.l1index[int(jb.route)*d.nSteps+int(jb.s[res.vioOp])])
+				}
+				if idx >= 0 {
+					return p1[idx].sig, p1[idx].op
+				}
+			}
+			rr := execute(red, nil)
+			if rr.vio == nil {
+				return "", -1
+			}
+			return rr.vio.sig, rr.vioOp
+		})
 		mu.Lock()
 		f := vios[sig]
 		if f == nil {
@@ -1477,7 +1654,9 @@ func Run(r *lib.Report) {
 			f.replay = c
 		}
 		mu.Unlock()
-	})
+	}
+	lib.ParallelFor(d.l1, work)
+	lib.ParallelFor(len(d.jobs)-d.l1, func(i int) { work(d.l1 + i) })
 
 	r.AddEval(int64(len(d.jobs)))
 	// outcomes (merged deterministically)
@@ -1492,12 +1671,11 @@ func Run(r *lib.Report) {
 		keys = append(keys, k)
 	}
 	sort.Strings(keys)
-	outc := map[string]int64{}
 	for _, k := range keys {
-		outc[k] = merged[k]
-		r.Outcome(k)
+		for n := int64(0); n < merged[k]; n++ {
+			r.Outcome(k)
+		}
 	}
-	r.Extra["outcome_counts"] = outc
 	r.Extra["judged"] = map[string]int64{
 		"weight_steps": nW, "match_steps": nM, "generated_canary_rules": nG, "finalise_calls": nF,
 		"histories_with_a_store_write": nWrote, "histories_held": nHeld,
@@ -1549,6 +1727,9 @@ func opName(c *Case, op int) string {
 	}
 }
 
+// ReplayViolated reports whether the last Replay reproduced a violation (for the driver's exit status).
+var ReplayViolated bool
+
 // Replay re-executes ONE recorded case (the `replay` value of a violation file) on the real provider,
 // printing every operation, the rules in the store after it and the verdict.
 func Replay(r *lib.Report, raw json.RawMessage) {
@@ -1575,7 +1756,8 @@ func Replay(r *lib.Report, raw json.RawMessage) {
 		fmt.Println("REPLAY VERDICT: property held on this case")
 		return
 	}
-	sig := attribute(c, res)
+	ReplayViolated = true
+	sig := attribute(c, res, nil)
 	fmt.Printf("REPLAY VERDICT: VIOLATION %s at %s\n", sig, opName(c, res.vioOp))
 	r.Violate(sig, "failing operation: "+opName(c, res.vioOp)+"\n"+res.vio.detail, c)
 }
